@@ -1,8 +1,24 @@
 package c07
 
 import (
+	"bytes"
+	"encoding/json"
+	"fmt"
 	"os"
+	"os/exec"
+	"path/filepath"
+	"regexp"
+	"runtime"
+	"sort"
+	"strconv"
+	"strings"
+	"sync"
 	"testing"
+	"time"
+
+	"verifharness/internal/ev"
+	"verifharness/internal/tlc"
+	"verifharness/internal/tv"
 )
 
 func TestMain(m *testing.M) {
@@ -10,4 +26,675 @@ func TestMain(m *testing.M) {
 		os.Exit(childMain())
 	}
 	os.Exit(m.Run())
+}
+
+const (
+	firstDeadline   = 2 * time.Second  // watchdog of the first run
+	confirmDeadline = 25 * time.Second // a hang is reported only if a second, isolated run does not return within this
+)
+
+// result of one call: shape index, entry index
+type callKey struct{ idx, ei int }
+
+type callResult struct {
+	outcome string
+	msg     string
+}
+
+type driver struct {
+	dir     string
+	shapes  []*Shape
+	mu      sync.Mutex
+	results map[callKey]callResult
+	bugs    []string
+	skipSet map[string]bool // fam|cls|entry with a confirmed hang
+	slow    []string        // calls that outlived the first watchdog but returned in the confirmation run
+	crashes int
+	spawned int
+}
+
+func (d *driver) skipFile() string { return filepath.Join(d.dir, "skip.txt") }
+
+func (d *driver) writeSkip() {
+	var ls []string
+	for k := range d.skipSet {
+		ls = append(ls, k)
+	}
+	sort.Strings(ls)
+	_ = os.WriteFile(d.skipFile(), []byte(strings.Join(ls, "\n")+"\n"), 0o644)
+}
+
+type childExit struct {
+	code    int
+	stderr  string
+	flIdx   int
+	flEntry int
+	lines   []string
+}
+
+// spawn runs one child over [from, to) and returns what it wrote.
+func (d *driver) spawn(tag string, from, to int, deadline time.Duration) childExit {
+	out := filepath.Join(d.dir, "out-"+tag+".txt")
+	flp := filepath.Join(d.dir, "flight-"+tag)
+	_ = os.Remove(out)
+	fl, err := openFlight(flp, true)
+	if err != nil {
+		return childExit{code: -1, stderr: err.Error()}
+	}
+	fl.set(-1, -1)
+	cmd := exec.Command(os.Args[0], "-test.run=^$")
+	cmd.Env = append(os.Environ(), "C07_CHILD=1", "C07_SHAPES="+filepath.Join(d.dir, "shapes.ndjson"), "C07_FIX="+filepath.Join(d.dir, "fixtures.json"),
+		"C07_FROM="+strconv.Itoa(from), "C07_TO="+strconv.Itoa(to), "C07_OUT="+out, "C07_FLIGHT="+flp, "C07_SKIP="+d.skipFile(),
+		"C07_DEADLINE_MS="+strconv.Itoa(int(deadline/time.Millisecond)), "GOMAXPROCS=2", "GOTRACEBACK=single")
+	var stderr bytes.Buffer
+	cmd.Stderr = &stderr
+	cmd.Stdout = &stderr
+	runErr := cmd.Run()
+	d.mu.Lock()
+	d.spawned++
+	d.mu.Unlock()
+	ce := childExit{}
+	if runErr != nil {
+		ce.code = -1
+		if ee, ok := runErr.(*exec.ExitError); ok {
+			ce.code = ee.ExitCode()
+		}
+	}
+	ce.stderr = stderr.String()
+	ce.flIdx, ce.flEntry = fl.get()
+	b, _ := os.ReadFile(out)
+	for _, l := range strings.Split(string(b), "\n") {
+		if l != "" {
+			ce.lines = append(ce.lines, l)
+		}
+	}
+	return ce
+}
+
+// absorb stores the child's result lines; returns the highest finished shape index (-1: none).
+func (d *driver) absorb(ce childExit, override bool) (done int, suspect *callKey) {
+	done = -1
+	d.mu.Lock()
+	defer d.mu.Unlock()
+	for _, l := range ce.lines {
+		f := strings.SplitN(l, "\t", 4)
+		if f[0] == "D" && len(f) >= 2 {
+			if n, err := strconv.Atoi(f[1]); err == nil && n > done {
+				done = n
+			}
+			continue
+		}
+		if len(f) < 3 {
+			continue
+		}
+		idx, _ := strconv.Atoi(f[0])
+		ei, _ := strconv.Atoi(f[1])
+		msg := ""
+		if len(f) == 4 {
+			msg = f[3]
+		}
+		switch f[2] {
+		case outBug:
+			d.bugs = append(d.bugs, fmt.Sprintf("shape %d (%s): %s", idx, d.shapes[idx].Fam, msg))
+		case outSuspect:
+			suspect = &callKey{idx, ei}
+		default:
+			k := callKey{idx, ei}
+			if _, ok := d.results[k]; !ok || override {
+				d.results[k] = callResult{f[2], msg}
+			}
+		}
+	}
+	return done, suspect
+}
+
+var reFatal = regexp.MustCompile(`(?m)^(fatal error: .*|panic: .*|runtime: .*|SIGSEGV.*|signal: .*)$`)
+
+func crashText(stderr string) string {
+	if m := reFatal.FindString(stderr); m != "" {
+		return m
+	}
+	return firstLine(stderr, 200)
+}
+
+// runRange runs shapes [from, to) in child processes, restarting after a crash
+// or a suspected hang of the child.
+func (d *driver) runRange(tag string, from, to int) {
+	attempt := 0
+	for from < to {
+		attempt++
+		ce := d.spawn(fmt.Sprintf("%s-%d", tag, attempt), from, to, firstDeadline)
+		done, suspect := d.absorb(ce, false)
+		if ce.code == 0 {
+			return
+		}
+		if ce.code == 4 || ce.flIdx < from || ce.flIdx >= to {
+			d.mu.Lock()
+			d.bugs = append(d.bugs, fmt.Sprintf("child %s [%d,%d) failed to run (exit %d): %s", tag, from, to, ce.code, firstLine(ce.stderr, 400)))
+			d.mu.Unlock()
+			return
+		}
+		idx, ei := ce.flIdx, ce.flEntry
+		sh := d.shapes[idx]
+		if suspect != nil {
+			idx, ei = suspect.idx, suspect.ei
+			sh = d.shapes[idx]
+			d.confirmHang(tag, idx, ei)
+		} else {
+			// the process died (fatal error, panic on another goroutine, ...): attributed to the call in flight
+			d.mu.Lock()
+			d.crashes++
+			if ei >= 0 && ei < len(sh.Entries) {
+				d.results[callKey{idx, ei}] = callResult{outPanic, "process crashed: " + crashText(ce.stderr)}
+			} else {
+				d.bugs = append(d.bugs, fmt.Sprintf("child crashed outside a call at shape %d (%s): %s", idx, sh.Fam, crashText(ce.stderr)))
+			}
+			d.mu.Unlock()
+		}
+		_ = done
+		from = idx + 1
+	}
+}
+
+// confirmHang re-runs one shape alone with the long deadline.
+func (d *driver) confirmHang(tag string, idx, ei int) {
+	sh := d.shapes[idx]
+	key := sh.Fam + "|" + sh.Cls + "|" + sh.Entries[ei]
+	d.mu.Lock()
+	already := d.skipSet[key]
+	d.mu.Unlock()
+	if already {
+		d.mu.Lock()
+		d.results[callKey{idx, ei}] = callResult{outSkipped, ""}
+		d.mu.Unlock()
+		return
+	}
+	ce := d.spawn(fmt.Sprintf("%s-confirm-%d", tag, idx), idx, idx+1, confirmDeadline)
+	_, suspect := d.absorb(ce, true)
+	d.mu.Lock()
+	defer d.mu.Unlock()
+	switch {
+	case suspect != nil:
+		d.results[callKey{suspect.idx, suspect.ei}] = callResult{outHang, fmt.Sprintf("no return within %s, then (alone) within %s", firstDeadline, confirmDeadline)}
+		s2 := d.shapes[suspect.idx]
+		d.skipSet[s2.Fam+"|"+s2.Cls+"|"+s2.Entries[suspect.ei]] = true
+		d.writeSkip()
+	case ce.code != 0:
+		d.crashes++
+		if ce.flEntry >= 0 && ce.flEntry < len(sh.Entries) {
+			d.results[callKey{idx, ce.flEntry}] = callResult{outPanic, "process crashed: " + crashText(ce.stderr)}
+		}
+	default:
+		d.slow = append(d.slow, fmt.Sprintf("%s %s %s", sh.Entries[ei], sh.Cls, string(sh.Raw)))
+	}
+}
+
+func (d *driver) runAll(workers int) {
+	n := len(d.shapes)
+	chunk := n/(workers*6) + 1
+	type job struct{ from, to int }
+	jobs := make(chan job, n/chunk+2)
+	for f := 0; f < n; f += chunk {
+		t := f + chunk
+		if t > n {
+			t = n
+		}
+		jobs <- job{f, t}
+	}
+	close(jobs)
+	var wg sync.WaitGroup
+	for w := 0; w < workers; w++ {
+		wg.Add(1)
+		go func() {
+			defer wg.Done()
+			for j := range jobs {
+				d.runRange(fmt.Sprintf("r%d", j.from), j.from, j.to)
+			}
+		}()
+	}
+	wg.Wait()
+}
+
+// ---------------------------------------------------------------------------
+
+type runKey struct{ fam, entry, cls string }
+
+type event struct {
+	idx     int
+	outcome string
+	msg     string
+}
+
+func callEvent(sh *Shape, entry string, idx int, outcome string) tv.M {
+	return tv.M{"fam": sh.Fam, "entry": entry, "cls": sh.Cls, "id": idx, "p": sh.Raw, "outcome": outcome}
+}
+
+// buildBatches groups the recorded calls into runs (fam, entry, cls) and
+// batches of at most maxLines lines.
+func buildBatches(shapes []*Shape, results map[callKey]callResult, maxLines int) ([]*tv.Batch, [][]runKey, map[runKey][]event) {
+	runs := map[runKey][]event{}
+	for k, r := range results {
+		if r.outcome == outSkipped {
+			continue
+		}
+		sh := shapes[k.idx]
+		rk := runKey{sh.Fam, sh.Entries[k.ei], sh.Cls}
+		runs[rk] = append(runs[rk], event{k.idx, r.outcome, r.msg})
+	}
+	var keys []runKey
+	for k := range runs {
+		sort.Slice(runs[k], func(i, j int) bool { return runs[k][i].idx < runs[k][j].idx })
+		keys = append(keys, k)
+	}
+	sort.Slice(keys, func(i, j int) bool {
+		a, b := keys[i], keys[j]
+		if a.fam != b.fam {
+			return a.fam < b.fam
+		}
+		if a.entry != b.entry {
+			return a.entry < b.entry
+		}
+		return a.cls < b.cls
+	})
+	var batches []*tv.Batch
+	var index [][]runKey
+	cur := &tv.Batch{}
+	var curKeys []runKey
+	for _, k := range keys {
+		if cur.Lines() > 0 && cur.Lines()+len(runs[k])+2 > maxLines {
+			batches, index = append(batches, cur), append(index, curKeys)
+			cur, curKeys = &tv.Batch{}, nil
+		}
+		cur.Start(tv.M{"fam": k.fam, "entry": k.entry, "cls": k.cls})
+		for _, e := range runs[k] {
+			cur.Ev("call", callEvent(shapes[e.idx], k.entry, e.idx, e.outcome))
+		}
+		cur.Ev("end", tv.M{"n": len(runs[k])})
+		curKeys = append(curKeys, k)
+	}
+	if cur.Lines() > 0 {
+		batches, index = append(batches, cur), append(index, curKeys)
+	}
+	return batches, index, runs
+}
+
+func traceCfg() string { return ev.Pick("TraceShapes.cfg", "TraceShapes_big.cfg") }
+
+func TestCheck(t *testing.T) {
+	e := ev.New("C07", "exploration")
+	defer func() {
+		if e.Write() > 0 {
+			t.Fail()
+		}
+	}()
+	dir, err := os.MkdirTemp("", "c07-")
+	if err != nil {
+		e.Inconclusive("mktemp: " + err.Error())
+		return
+	}
+	defer os.RemoveAll(dir)
+
+	// 0. the defect model (one guard dropped) must be caught by TLC: the model check is not vacuous
+	defectCh := make(chan tlc.Result, 1)
+	go func() {
+		defectCh <- tlc.Run(tlc.Opts{Dir: "InputShapes", Module: "ShapesModel", Config: "MC_defect.cfg", Workers: 2, Timeout: 5 * time.Minute, HeapMB: 2048, Args: []string{"-noGenerateSpecTE"}})
+	}()
+	fixCh := make(chan error, 1)
+	go func() { fixCh <- generateFixtures(filepath.Join(dir, "fixtures.json")) }()
+
+	// 1. TLC enumerates the shape space (written to shapes.ndjson) and checks the guard-table model against the monitor
+	mc := tlc.Run(tlc.Opts{Dir: "InputShapes", Module: "ShapesModel", Config: ev.Pick("MC_small.cfg", "MC_big.cfg"), Workers: 14,
+		Timeout: ev.Pick(6*time.Minute, 40*time.Minute), HeapMB: ev.Pick(6144, 12288), Args: []string{"-noGenerateSpecTE"}, Keep: []string{"shapes.ndjson"}})
+	fmt.Printf("MC ShapesModel: ok=%v generated=%d distinct=%d wall=%s %s\n", mc.OK, mc.Generated, mc.Distinct, mc.Wall.Round(time.Millisecond), mc.What)
+	if !mc.OK {
+		e.Inconclusive("model check / enumeration of ShapesModel did not pass: " + mc.What + "\n" + mc.Tail(2000))
+	}
+	e.Set("states", mc.Distinct)
+	e.Set("transitions", mc.Generated)
+	e.Set("checker_cmd", mc.Cmd)
+	data := mc.Kept["shapes.ndjson"]
+	if len(data) == 0 {
+		e.Inconclusive("TLC did not write shapes.ndjson\n" + mc.Tail(2000))
+		return
+	}
+	shapes, err := loadShapes(data)
+	if err != nil {
+		e.Inconclusive("cannot read the shapes TLC wrote: " + err.Error())
+		return
+	}
+	if m := regexp.MustCompile(`<<"SHAPES", (\d+)>>`).FindStringSubmatch(mc.Output); m == nil || m[1] != strconv.Itoa(len(shapes)) {
+		e.Inconclusive(fmt.Sprintf("shape count mismatch: TLC announced %v, file has %d", m, len(shapes)))
+		return
+	}
+	if rp := os.Getenv("VERIF_REPLAY"); rp != "" {
+		shapes, err = replayShapes(rp)
+		if err != nil {
+			e.Inconclusive("replay: " + err.Error())
+			return
+		}
+	}
+	// a fixed permutation spreads the (contiguous) families, and with them the slow shapes, over the child processes
+	shapes, data = permute(shapes)
+	if err := os.WriteFile(filepath.Join(dir, "shapes.ndjson"), data, 0o644); err != nil {
+		e.Inconclusive(err.Error())
+		return
+	}
+	if err := <-fixCh; err != nil {
+		e.Inconclusive("fixtures: " + err.Error())
+		return
+	}
+
+	// 2. every shape is rendered and fed to the real entry points in child processes
+	d := &driver{dir: dir, shapes: shapes, results: map[callKey]callResult{}, skipSet: map[string]bool{}}
+	d.writeSkip()
+	start := time.Now()
+	workers := runtime.NumCPU()
+	if workers > 16 {
+		workers = 16
+	}
+	d.runAll(workers)
+	fmt.Printf("ran %d shapes -> %d calls in %s (%d child processes, %d crashes, %d slow, %d hang classes)\n", len(shapes), len(d.results),
+		time.Since(start).Round(time.Millisecond), d.spawned, d.crashes, len(d.slow), len(d.skipSet))
+	seenBug := map[string]bool{}
+	for _, b := range d.bugs {
+		// one report per family and message
+		k := regexp.MustCompile(`shape \d+`).ReplaceAllString(firstLine(b, 120), "shape N")
+		if seenBug[k] {
+			continue
+		}
+		seenBug[k] = true
+		if len(seenBug) > 12 {
+			e.Inconclusive(fmt.Sprintf("harness: ... %d failures in total", len(d.bugs)))
+			break
+		}
+		e.Inconclusive("harness: " + firstLine(b, 700))
+	}
+	if len(d.bugs) > 0 {
+		return
+	}
+	famSeen := map[string]int{}
+	touched := map[int]bool{}
+	for k := range d.results {
+		touched[k.idx] = true
+	}
+	for i, s := range shapes {
+		if touched[i] {
+			famSeen[s.Fam]++
+		}
+	}
+	e.Set("shapes", int64(len(shapes)))
+	e.Set("shapes_exercised", int64(len(touched)))
+	e.Set("shapes_exercised_by_family", famSeen)
+	e.Set("evaluations", int64(len(d.results)))
+	if len(touched) < len(shapes)*9/10 {
+		e.Inconclusive(fmt.Sprintf("only %d of %d shapes produced a call", len(touched), len(shapes)))
+	}
+	if len(d.slow) > 0 {
+		sort.Strings(d.slow)
+		if len(d.slow) > 20 {
+			d.slow = d.slow[:20]
+		}
+		e.Set("slow_but_returning", d.slow)
+	}
+
+	// 3. TLC judges the recorded calls against the contract
+	batches, index, runs := buildBatches(shapes, d.results, 400000)
+	outcomes := map[string]int64{}
+	for k, evs := range runs {
+		for _, x := range evs {
+			outcomes[x.outcome]++
+			e.Nontrivial(k.entry + "|" + k.cls + "|" + x.outcome)
+		}
+	}
+	e.Set("outcomes", outcomes)
+	byEntry := map[string]map[string]int{}
+	for k, evs := range runs {
+		if byEntry[k.entry] == nil {
+			byEntry[k.entry] = map[string]int{}
+		}
+		for _, x := range evs {
+			byEntry[k.entry][x.outcome]++
+		}
+	}
+	e.Set("outcomes_by_entry", byEntry)
+	if dump := os.Getenv("C07_DUMP"); dump != "" {
+		var sb strings.Builder
+		for k, evs := range runs {
+			cnt := map[string]int{}
+			ex := map[string]string{}
+			for _, x := range evs {
+				cnt[x.outcome]++
+				if ex[x.outcome] == "" {
+					ex[x.outcome] = string(shapes[x.idx].Raw) + " => " + x.msg
+				}
+			}
+			fmt.Fprintf(&sb, "%s\t%s\t%s\t%v\n", k.fam, k.entry, k.cls, cnt)
+			for o, x := range ex {
+				fmt.Fprintf(&sb, "\t\t%s: %s\n", o, firstLine(x, 260))
+			}
+		}
+		_ = os.WriteFile(dump, []byte(sb.String()), 0o644)
+	}
+	e.Set("runs", int64(len(runs)))
+	expectBad := map[runKey]string{}
+	for k, evs := range runs {
+		for _, x := range evs {
+			if x.outcome == outHang || (x.outcome == outPanic && !isMisuse(k)) {
+				if _, ok := expectBad[k]; !ok {
+					expectBad[k] = x.outcome
+				}
+			}
+		}
+	}
+	gotBad := map[runKey]string{}
+	validated := 0
+	for bi, b := range batches {
+		rej, res := tv.Validate(tlc.Opts{Dir: "InputShapes", Module: "TraceShapes", Config: traceCfg(), Workers: 16, Timeout: ev.Pick(6*time.Minute, 30*time.Minute), HeapMB: ev.Pick(8192, 12288)}, b)
+		fmt.Printf("TLC trace validation %d/%d: ok=%v runs=%d lines=%d rejects=%d distinct=%d wall=%s %s\n", bi+1, len(batches), res.OK, b.Len(), b.Lines(), len(rej), res.Distinct, res.Wall.Round(time.Millisecond), res.What)
+		if !res.OK && !res.Violation {
+			e.Inconclusive("trace validation did not run: " + res.What + "\n" + res.Tail(2000))
+			return
+		}
+		if res.Violation {
+			e.Inconclusive("TLC failed while validating traces:\n" + res.Tail(3000))
+			return
+		}
+		validated += b.Len()
+		for _, r := range rej {
+			k := index[bi][r.Trace]
+			if r.Why != outPanic && r.Why != outHang {
+				e.Inconclusive(fmt.Sprintf("binding: run %v rejected at event %d: %s", k, r.At, r.Why))
+				continue
+			}
+			gotBad[k] = r.Why
+		}
+	}
+	e.Set("traces_validated_against_impl", int64(validated))
+	for k, why := range gotBad {
+		if expectBad[k] == "" {
+			e.Inconclusive(fmt.Sprintf("TLC rejected run %v (%s) but the harness recorded no such outcome", k, why))
+			continue
+		}
+		var bad []any
+		for _, x := range runs[k] {
+			if x.outcome == why {
+				if len(bad) < 6 {
+					bad = append(bad, tv.M{"shape": json.RawMessage(shapeJSON(shapes[x.idx])), "outcome": x.outcome, "detail": x.msg})
+				}
+			}
+		}
+		n := 0
+		for _, x := range runs[k] {
+			if x.outcome == why {
+				n++
+			}
+		}
+		if len(bad) == 0 {
+			e.Inconclusive(fmt.Sprintf("TLC rejected run %v for %s but the harness recorded another outcome", k, why))
+			continue
+		}
+		first := bad[0].(tv.M)
+		e.Violation(why+":"+k.entry+":"+k.cls, fmt.Sprintf("%s on %d of %d shapes of class %s (family %s), e.g. p=%s: %s", k.entry, n, len(runs[k]), k.cls, k.fam, string(first["shape"].(json.RawMessage)), first["detail"]),
+			tv.M{"shapes": bad, "entry": k.entry, "class": k.cls, "family": k.fam})
+	}
+	for k, why := range expectBad {
+		if gotBad[k] == "" {
+			e.Inconclusive(fmt.Sprintf("the harness recorded %s in run %v but TLC accepted the run", why, k))
+		}
+	}
+
+	// evidence: rule and samples
+	e.Set("rule", "a case = one call of a real entry point on the rendering of one shape (family, parameter record) enumerated by TLC from spec/InputShapes/InputShapes.tla "+
+		"(cron ASTs+mutations x parser option sets, TZ prefixes, duration/timestamp token sequences, every length 0..65 (+block multiples +-1) x algorithm x content class for wrapped keys/ciphertexts/tags/nonces/keys/paddings, "+
+		"every marshalable key type x encoding x container x PEM label x cut, whitespace blobs 0..40, JWK members removed/retyped, certificate bundles, enc/v1 header lines and manifest members mutated (stale and re-signed MAC), "+
+		"metadata/config value kinds x target kinds); non-trivial = distinct (entry point, shape class, outcome) triples; all shapes of the tier's grammar are executed (no sampling); "+
+		"a call counts as hang only if it exceeds 2s and then, alone, 25s")
+	sampleRuns(e, shapes, runs)
+	if dr := <-defectCh; !dr.Violation || !strings.Contains(dr.What, "NotBad") {
+		e.Inconclusive("the defect model (guard wrapped-key-min-length dropped) was not caught by TLC: " + dr.What)
+	} else {
+		e.Set("defect_model_detected", true)
+	}
+	e.Assume("the claim covers the shapes of the grammar only (not arbitrary byte strings); rendering of tokens to bytes is done by the harness",
+		"hang = no return within 2s and, in an isolated second run, within 25s; a crash of the child process is attributed to the call in flight",
+		"trusted: TLC, the Go runtime's recover / process exit status, crypto primitives of the standard library used to build valid samples")
+
+	// 4. binding self-test
+	selfTest(e, shapes)
+}
+
+func permute(in []*Shape) ([]*Shape, []byte) {
+	n := len(in)
+	stride := 7919
+	for n%stride == 0 {
+		stride += 2
+	}
+	gcd := func(a, b int) int {
+		for b != 0 {
+			a, b = b, a%b
+		}
+		return a
+	}
+	for n > 0 && gcd(stride, n) != 1 {
+		stride++
+	}
+	out := make([]*Shape, 0, n)
+	var buf bytes.Buffer
+	for i := 0; i < n; i++ {
+		s := in[(i*stride)%n]
+		out = append(out, s)
+		buf.Write(shapeJSON(s))
+		buf.WriteByte('\n')
+	}
+	return out, buf.Bytes()
+}
+
+var misuse = map[[2]string]bool{{"aescbcaead.Seal", "nonce-wrong-size"}: true, {"cron.NewParser", "two-optionals"}: true}
+
+// isMisuse mirrors ShapesContract!Misuse only to cross-check TLC's verdicts (a mismatch is reported as inconclusive).
+func isMisuse(k runKey) bool { return misuse[[2]string{k.entry, k.cls}] }
+
+func shapeJSON(s *Shape) []byte {
+	b, _ := json.Marshal(map[string]any{"fam": s.Fam, "cls": s.Cls, "entries": s.Entries, "p": s.Raw})
+	return b
+}
+
+func sampleRuns(e *ev.Evidence, shapes []*Shape, runs map[runKey][]event) {
+	var keys []runKey
+	for k := range runs {
+		keys = append(keys, k)
+	}
+	sort.Slice(keys, func(i, j int) bool { return fmt.Sprint(keys[i]) < fmt.Sprint(keys[j]) })
+	seenFam := map[string]bool{}
+	for _, k := range keys {
+		if seenFam[k.fam] || len(runs[k]) == 0 {
+			continue
+		}
+		seenFam[k.fam] = true
+		x := runs[k][len(runs[k])/2]
+		e.Sample(tv.M{"entry": k.entry, "class": k.cls, "shape": json.RawMessage(shapeJSON(shapes[x.idx])), "outcome": x.outcome, "detail": x.msg})
+	}
+}
+
+func replayShapes(path string) ([]*Shape, error) {
+	b, err := os.ReadFile(path)
+	if err != nil {
+		return nil, err
+	}
+	var f struct {
+		Replay struct {
+			Shapes []struct {
+				Shape json.RawMessage `json:"shape"`
+			} `json:"shapes"`
+		} `json:"replay"`
+	}
+	if err := json.Unmarshal(b, &f); err != nil {
+		return nil, err
+	}
+	var buf bytes.Buffer
+	for _, s := range f.Replay.Shapes {
+		buf.Write(bytes.ReplaceAll(s.Shape, []byte("\n"), nil))
+		buf.WriteByte('\n')
+	}
+	out, err := loadShapes(buf.Bytes())
+	if err == nil && len(out) == 0 {
+		err = fmt.Errorf("no shapes in %s", path)
+	}
+	return out, err
+}
+
+// selfTest: the validator must accept an honest run and reject (a) a panic
+// outcome, (b) a call whose parameters are not a shape of the grammar, (c) a
+// call on an entry point the grammar does not list for the shape, (d) a run
+// with a missing call, and accept (e) a documented misuse panic.
+func selfTest(e *ev.Evidence, shapes []*Shape) {
+	var kw, seal *Shape
+	for _, s := range shapes {
+		if kw == nil && s.Fam == "kw-wrap" {
+			kw = s
+		}
+		if seal == nil && s.Fam == "aead-seal" && s.Cls == "nonce-wrong-size" {
+			seal = s
+		}
+	}
+	if os.Getenv("VERIF_REPLAY") != "" {
+		return
+	}
+	if kw == nil || seal == nil {
+		e.Inconclusive("binding self-test: sample shapes not found")
+		return
+	}
+	b := &tv.Batch{}
+	run := func(sh *Shape, entry string, outcome string, mut func(m tv.M), n int) {
+		b.Start(tv.M{"fam": sh.Fam, "entry": entry, "cls": sh.Cls})
+		m := callEvent(sh, entry, 0, outcome)
+		if mut != nil {
+			mut(m)
+		}
+		b.Ev("call", m)
+		b.Ev("end", tv.M{"n": n})
+	}
+	run(kw, "aeskw.Wrap", outOK, nil, 1)                                                                           // 0 accepted
+	run(kw, "aeskw.Wrap", outPanic, nil, 1)                                                                        // 1 rejected: panic
+	run(kw, "aeskw.Wrap", outOK, func(m tv.M) { m["p"] = json.RawMessage(`{"len":1000000,"key":16}`) }, 1)         // 2 rejected: not a shape
+	run(kw, "aeskw.Unwrap", outOK, nil, 1)                                                                         // 3 rejected: entry not listed
+	run(kw, "aeskw.Wrap", outOK, nil, 2)                                                                           // 4 rejected: incomplete
+	run(seal, "aescbcaead.Seal", outPanic, nil, 1)                                                                 // 5 accepted: misuse
+	run(kw, "aeskw.Wrap", outHang, nil, 1)                                                                         // 6 rejected: hang
+	rej, res := tv.Validate(tlc.Opts{Dir: "InputShapes", Module: "TraceShapes", Config: traceCfg(), Workers: 2, Timeout: 3 * time.Minute, HeapMB: 2048}, b)
+	got := map[int]string{}
+	for _, r := range rej {
+		got[r.Trace] = r.Why
+	}
+	st := tv.M{"honest_run_accepted": got[0] == "", "panic_rejected": got[1] == "panic", "foreign_shape_rejected": got[2] == "not a shape of the grammar",
+		"unlisted_entry_rejected": got[3] == "not a shape of the grammar", "incomplete_run_rejected": got[4] == "run is incomplete",
+		"documented_misuse_panic_accepted": got[5] == "", "hang_rejected": got[6] == "hang"}
+	e.Set("binding_selftest", st)
+	ok := res.OK
+	for _, v := range st {
+		ok = ok && v.(bool)
+	}
+	if !ok {
+		e.Inconclusive(fmt.Sprintf("binding self-test failed: %v rejects=%v %s", st, rej, res.What))
+	}
 }
